@@ -436,7 +436,7 @@ func c18SmallGen(rt *rapid.T) c18Case {
 }
 
 func TestVerif_C18_small(t *testing.T) {
-	kit.Run(t, c18ID, "small-primitives", kit.Opts{Quick: 6000, Thorough: 240000}, c18SmallGen,
+	kit.Run(t, c18ID, "small-primitives", kit.Opts{Quick: 6000, Thorough: 200000}, c18SmallGen,
 		func(c c18Case) kit.Verdict { return c18SmallInterp(t, c) })
 }
 
